@@ -12,6 +12,13 @@ def fuzz(name, target, fuzztime, workers=8, timeout=None):
     return {"name": name, "kind": "fuzz", "target": target, "thorough": t}
 
 PROPS = {
+    "C10": {
+        "level": "exploration",
+        "jobs": [
+            rapid("lifecycle", "^TestC10$", {"checks": 30, "steps": 35, "shards": 8, "timeout": 900, "shrinktime": "30s"},
+                  {"checks": 500, "steps": 60, "shards": 14, "timeout": 5000, "shrinktime": "120s"}),
+        ],
+    },
     "C09": {
         "level": "exploration",
         "jobs": [
